@@ -578,6 +578,43 @@ def explore_shard(arg):
     return res
 
 
+def validator_selfcheck(_):
+    """the trace validator must reject traces that are not executions of the model: a second
+    thread acquiring a held lock, a cache operation without the lock, a wrong stored object, a
+    missing release; and must not call a truncated trace complete"""
+    scn = norm_scenario(all_scenarios(False)[4])
+    res = Result()
+    try:
+        run, obs = run_schedule(scn, [[30, 1]])
+        good = list(obs.events)
+
+        def ask(evs):
+            obs.events = evs
+            return proto.run_lines([trace_line(scn, obs)])[0]
+        variants = {'as-recorded': (good, '( ok')}
+        if (1, 'blk') in good:
+            b = list(good)
+            b[b.index((1, 'blk'))] = (1, 'acq')
+            variants['two-holders'] = (b, '( reject')
+        variants['no-acquire'] = ([e for e in good if e != (0, 'acq')], '( reject')
+        puts = [e for e in good if e[1] == 'put']
+        if puts:
+            variants['wrong-object'] = ([(e[0], 'put', e[2] + 7) if e == puts[0] else e for e in good], '( reject')
+        b = list(good)
+        b.remove((0, 'rel'))
+        variants['no-release'] = (b, '( reject')
+        variants['truncated'] = (good[:-3], '( incomplete')
+        for name, (evs, want) in sorted(variants.items()):
+            ans = ask(evs)
+            res.streams['validator-selfcheck'] = res.streams.get('validator-selfcheck', 0) + 1
+            if not ans.startswith(want):
+                res.disagreements.append({'stream': 'validator-selfcheck', 'case': {'kind': 'selfcheck', 'variant': name},
+                                          'model': ans[:300], 'real': want})
+    finally:
+        cleanup()
+    return res
+
+
 def scenario_len(scn):
     """number of yield points and the alternatives at each, of the unpreempted run"""
     scn = norm_scenario(scn)
@@ -613,6 +650,8 @@ def run(ctx):
     args, infos = shards(ctx, scns)
     for r in pmap('harness.props.c16', 'explore_shard', args):
         res.merge(r)
+    for r in pmap('harness.props.c16', 'validator_selfcheck', [0]):
+        res.merge(r)
     res.failures.sort(key=lambda f: 1 if f.get('soft') else 0)
     inner = 0
     for scn, info in zip(scns, infos):
@@ -646,6 +685,8 @@ def search(ctx, res, broken):
 
 
 def replay(ctx, case):
+    if case.get('kind') == 'selfcheck':
+        return None
     if case.get('kind') != 'sched':
         raise ValueError(case.get('kind'))
     scn = norm_scenario(case['scenario'])
